@@ -140,7 +140,7 @@ PROPS = {
             "lock fairness / poisoning are runtime behaviour: exercised by 8 real threads under a watchdog (direct implementation checks conc-*), not proved",
             "space-time entries and the constructors from geometry are outside the modelled population (S-, T-, F-MOCs inserted as values)"],
         "rule": "ONE continuous sequential history on the process-wide store (6 000 calls quick / 80 000 thorough + 259-copy bursts + a final sweep of 80 indices): add, copy, drop, get, not, degrade, and, or, "
-                "xor, minus, multi-and/or/xor over S/T/F values, with dead or never-allocated indices (1 in 12), mismatched kinds, empty operand lists, drain phases (slot reuse order) — every answer "
+                "xor, minus, multi-and/or/xor (lists with a repeated index 1 out of 3) over S/T/F values, export + re-import (FITS through the generic loader or the loader of one kind — possibly not the MOC's —, ASCII and JSON through the loader of the MOC's kind: a new entry with the same value), read-only queries (eq, is_empty, min / max / number of ranges / sum), with dead or never-allocated indices (1 in 12), mismatched kinds, empty operand lists, drain phases (slot reuse order) — every answer "
                 "(index handed out, value, error class, and the lock sections R+R-/W+W- the call took) compared with the model state kept from line to line; then 8 threads x 2.5 s (30 s thorough) of private histories on 4 shared read-only operands: "
                 "every value checked against the library result, indices pairwise distinct while live, stall watchdog (10 s), store usable afterwards. distinct_nontrivial = distinct op lines.",
         "explanation": "theorems: refinement of the slab store to a reference registry for every call and history, freshness of handed-out indices, value stability, count arithmetic, two-phase atomicity, interleavings = sequential order of completion sections; correspondence on a long history + threaded run",
